@@ -735,3 +735,22 @@ K('C18', 'children-by-cardinality', [(RG, "                    any(set(r2) < set
 T('C18', 'children-in-between-test-reordered', [(RG, "                    any(set(r2) < set(r3) and set(r3) < set(r1) for r3 in regions):\n                    G.add_edge(r1, r2)",
                                                      "                    any(set(r3) < set(r1) and set(r3) > set(r2) for r3 in regions):\n                    G.add_edge(r1, r2)")])
 
+# ------------------------------------------------------------------ round 10: the rules added for its pairs
+K('C15', 'domain-equality-ignores-order', [(DOM, "        return self.attrs == other.attrs and self.shape == other.shape\n",
+                                             "        return dict(zip(self.attrs, self.shape)) == dict(zip(other.attrs, other.shape))\n")], 'equality')
+T('C15', 'domain-equality-zipped-pairs', [(DOM, "        return self.attrs == other.attrs and self.shape == other.shape\n",
+                                            "        return list(zip(self.attrs, self.shape)) == list(zip(other.attrs, other.shape))\n")])
+K('C14', 'cv-difference-through-factor-sub', [(CV, "        return self + -1*other\n", "        return CliqueVector({ cl : self[cl] - other[cl] for cl in self })\n")], 'cv-difference')
+T('C14', 'cv-difference-per-clique', [(CV, "        return self + -1*other\n", "        return CliqueVector({ cl : self[cl] + -1*other[cl] for cl in self })\n")])
+K('C16', 'forebears-without-the-region', [(RG, "        self.forebears = { r : set([r] + self.ancestors[r]) for r in regions }\n", "        self.forebears = { r : set(self.ancestors[r]) for r in regions }\n")], 'region-structure')
+T('C16', 'forebears-by-union', [(RG, "        self.forebears = { r : set([r] + self.ancestors[r]) for r in regions }\n", "        self.forebears = { r : {r} | set(self.ancestors[r]) for r in regions }\n")])
+K('C18', 'restart-on-a-stalled-loss', [(LI, "            if l > prev_l:\n", "            if l >= prev_l:\n")], 'restart-on-increase')
+T('C18', 'restart-test-negated', [(LI, "            if l > prev_l:\n", "            if not (l <= prev_l):\n")])
+K('C07', 'delta-floored-at-a-positive-value', [(CDP, "    return min(delta,1.0) #delta<=1 always\n", "    return min(max(delta,1e-16),1.0)\n")], 'delta-formula')
+T('C07', 'delta-floored-at-zero', [(CDP, "    return min(delta,1.0) #delta<=1 always\n", "    return min(max(delta,0.0),1.0)\n")])
+K('C07', 'rho-seed-without-the-lower-order-term', [(CDP, "    rhomin=0.0 #maintain cdp_delta(rho,eps)<=delta\n", "    rhomin=eps**2/(4*math.log(1/delta))\n")], 'sound-seed')
+T('C07', 'rho-seed-from-the-standard-bound', [(CDP, "    rhomin=0.0 #maintain cdp_delta(rho,eps)<=delta\n",
+                                               "    rhomin=(math.sqrt(math.log(1/delta)+eps)-math.sqrt(math.log(1/delta)))**2\n")])
+K('C20', 'infinite-epsilon-first-maximiser', [(AG, "        eps = np.finfo(np.float64).max\n", "        probas = np.zeros(q.size)\n        probas[q.argmax()] = 1.0\n        return prng.choice(q.size, p=probas)\n")], 'noiseless-limit')
+T('C20', 'infinite-epsilon-uniform-over-maximisers', [(AG, "        eps = np.finfo(np.float64).max\n", "        probas = (q == q.max()).astype(float)\n        return prng.choice(q.size, p=probas / probas.sum())\n")])
+
